@@ -19,7 +19,7 @@ import sys
 import time
 from concurrent.futures import ThreadPoolExecutor
 
-from insights.core import dr, serde
+from insights.core import dr, filters, serde
 from insights.core import spec_factory as sf
 from insights.core.context import HostContext, SerializedArchiveContext
 from insights.core.exceptions import CalledProcessError, ContentException, SkipComponent, TimeoutException
@@ -101,6 +101,9 @@ class VSpecs(SpecSet):               # registry points: what collection persists
     s6 = RegistryPoint()
 
 
+    sf = RegistryPoint(filterable=True, multi_output=True)     # a filterable spec (see FILTER below)
+
+
 class VImpl(VSpecs):                 # their implementations
     s1 = _mkb(1)
     s2 = _mkb(2)
@@ -110,7 +113,14 @@ class VImpl(VSpecs):                 # their implementations
     s6 = _mkb(6)
 
 
+    sf = _mkb(0)
+
+
 POINTS = [getattr(VSpecs, "s%d" % _i) for _i in range(1, 7)]
+# the filterable spec has one filter with a max-match budget (the model's Budget); every line of a "filtered" entry
+# contains it and an element has at most that many lines, so loading must keep them all
+FILTER, BUDGET = "KEEP", 2
+filters.add_filter(VSpecs.sf, FILTER, max_match=BUDGET)
 
 PLAIN = ["alpha beta 123", "key = value", "# comment; with, punctuation!", "0", "x", "a  b\tc", "{\"json\": [1, 2]}",
          "-rw-r--r--. 1 root root 42 Jan  1 00:00 /etc/hosts"]
@@ -234,6 +244,10 @@ class Case(object):
             n = len(e["elems"])
             for j, el in enumerate(e["elems"], 1):
                 lines = [self.concrete(ln[0], c, j, k) if ln else "" for k, ln in enumerate(el["lines"], 1)]
+                if e.get("filtered"):
+                    for k, t in enumerate(lines):
+                        self.token["%s %s" % (FILTER, t)] = self.token.pop(t)
+                        lines[k] = "%s %s" % (FILTER, t)
                 # with a thread pool the commands of a multi-output value answer at different speeds:
                 # the first element is the slowest (content is loaded lazily, when the element is written)
                 slow = (n - j) * 0.015 if (self.pooled and e["multi"]) else 0.0
@@ -279,11 +293,12 @@ class Case(object):
         n = len(case["entries"])
         # the key under which an entry is persisted / loaded: the registry point for a spec-backed datasource,
         # the datasource itself for a stand-alone one
-        comps = [POINTS[i] if e.get("backed") else COMPS[i] for i, e in enumerate(case["entries"])]
+        comps = [VSpecs.sf if e.get("filtered") else (POINTS[i] if e.get("backed") else COMPS[i])
+                 for i, e in enumerate(case["entries"])]
         names = [dr.get_name(c) for c in comps]
         CUR.clear()
         for i, e in enumerate(case["entries"], 1):
-            CUR[i] = self.producer(i, e)
+            CUR[0 if e.get("filtered") else i] = self.producer(i, e)
         broker = dr.Broker()
         broker[HostContext] = self.ctx
         pool = ThreadPoolExecutor(max_workers=4) if self.pooled else None
@@ -320,9 +335,10 @@ class Case(object):
                 oc = "serialization"
             centries.append(dict(kind=kind, multi=isinstance(v, list),
                                  failed=oc in ("content", "cmd", "timeout", "crash", "serialization"),
-                                 outcome=oc, backed=bool(e.get("backed")), recorded=recorded,
+                                 outcome=oc, backed=bool(e.get("backed")), filtered=bool(e.get("filtered")), recorded=recorded,
                                  saveas=e["saveas"], elems=elems))
             stats["failed_" + ("backed" if e.get("backed") else "alone")] += int(oc not in ("ok", "skip"))
+            stats["filtered"] += int(bool(e.get("filtered")))
         events.append(dict(ev="collected", comps=centries, pooled=self.pooled))
         # ---- persisted
         docs, env = [], []
@@ -389,6 +405,14 @@ class Case(object):
                 with open(path, "wb") as f:
                     f.write(junk)
                 how = "nonjson:%r" % junk
+            elif mode == "unopenable":
+                os.unlink(path)
+                if self.rng.random() < 0.5:
+                    os.mkdir(path)                                  # a directory named like the entry
+                    how = "unopenable:directory"
+                else:
+                    os.symlink(os.path.join(self.out, "no-such-target"), path)   # a dangling symlink
+                    how = "unopenable:dangling-symlink"
             elif mode in ("unknown", "shape"):
                 with open(path) as f:
                     doc = json.load(f)
@@ -475,7 +499,7 @@ def main():
     rng = random.Random(req.get("seed", 0))
     _ORDER["rng"] = random.Random(req.get("seed", 0) + 1)
     os.makedirs(req["base"], exist_ok=True)
-    stats = dict(failed_backed=0, failed_alone=0, pooled=0, archives=0, docs=0, docs_with_results=0, docs_with_errors=0, datafiles=0, faults=0, loaded=0)
+    stats = dict(filtered=0, failed_backed=0, failed_alone=0, pooled=0, archives=0, docs=0, docs_with_results=0, docs_with_errors=0, datafiles=0, faults=0, loaded=0)
     traces = []
     for k, case in enumerate(req["cases"]):
         c = Case(case, req["base"], rng, req.get("longlen", 70000))
